@@ -236,26 +236,22 @@ func (s *Server) sendTransaction(t Transaction) error {
 	return nil
 }
 
-// sendTransactionInOrder writes t to client once every transaction that was queued for that client before it (those
-// with a smaller ticket) has been written.  Each transaction still has its own goroutine, so a client that does not
-// read only holds up what is meant for itself; but two notices about the same user can no longer overtake each other
-// on their way to one recipient, which left that recipient's user list wrong for good.
-func (s *Server) sendTransactionInOrder(client *ClientConn, ticket uint64, t Transaction) error {
+// sendTransactionInOrder writes t to client once the transaction that was queued for that client before it has been
+// written (prev is that transaction's gate, nil for the first), and opens its own gate afterwards.  Each transaction
+// still has its own goroutine, so a client that does not read only holds up what is meant for itself; but two notices
+// about the same user can no longer overtake each other on their way to one recipient, which left that recipient's
+// user list wrong for good.  A sender is woken once, by its predecessor: the cost of a delivery does not depend on
+// how many others are waiting.
+func (s *Server) sendTransactionInOrder(client *ClientConn, prev, gate *sync.Mutex, t Transaction) error {
+	defer gate.Unlock()
+
+	if prev != nil {
+		prev.Lock()
+		prev.Unlock()
+	}
+
 	client.writeMu.Lock()
 	defer client.writeMu.Unlock()
-
-	if client.sendCond == nil {
-		client.sendCond = sync.NewCond(&client.writeMu)
-	}
-
-	for client.sendDone != ticket {
-		client.sendCond.Wait()
-	}
-
-	defer func() {
-		client.sendDone++
-		client.sendCond.Broadcast()
-	}()
 
 	if _, err := io.Copy(client.Connection, &t); err != nil {
 		return fmt.Errorf("failed to send transaction to client %v: %v", t.ClientID, err)
@@ -268,17 +264,18 @@ func (s *Server) processOutbox() {
 	for {
 		t := <-s.outbox
 
-		// Only this goroutine hands out tickets, in the order the transactions were queued.
+		// Only this goroutine hands out gates, in the order the transactions were queued.
 		client := s.ClientMgr.Get(t.ClientID)
 		if client == nil {
 			continue
 		}
 
-		ticket := client.sendQueued
-		client.sendQueued++
+		prev, gate := client.sendTail, &sync.Mutex{}
+		gate.Lock()
+		client.sendTail = gate
 
 		go func() {
-			if err := s.sendTransactionInOrder(client, ticket, t); err != nil {
+			if err := s.sendTransactionInOrder(client, prev, gate, t); err != nil {
 				s.Logger.Error("error sending transaction", "err", err)
 			}
 		}()
